@@ -16,6 +16,11 @@ def get_bits(v, msb, lsb):
 
 
 def set_bits(v, msb, lsb, x):
+    if isinstance(msb, int) and isinstance(lsb, int) and msb >= lsb >= 0:
+        # mask form keeps the static interval tight (callers' range obligations then need no solver)
+        top = v >> (msb + 1)
+        low = uint(v, lsb)
+        return (top << (msb + 1)) | (c2i(x) << lsb) | low
     return v - (get_bits(v, msb, lsb) << lsb) + (c2i(x) << lsb)
 
 
